@@ -351,3 +351,41 @@ M('c12-rendition-cached-only-when-truthy', 'C12', 'R4', RS, RB,
   "                    rendered = handler.serialize(self._media, self.content_type)\n                    if rendered:\n"
   "                        self._media_rendered = rendered\n                    data = rendered\n"
   "                else:\n                    data = self._media_rendered\n", also=('C05',))
+
+# ---- wave 9: R9 the sync shortcut slots only under an exact-type test (s9-c12-1)
+UE = 'falcon/media/urlencoded.py'
+UG = "        if type(self) is URLEncodedFormHandler:\n"
+# the seed: "serialize / deserialize not overridden" forgets the coroutines the slots replace
+M('c12-form-shortcut-guard-forgets-coroutines', 'C12', 'R9', UE, UG,
+  "        cls = type(self)\n        if (\n            cls.serialize is URLEncodedFormHandler.serialize\n"
+  "            and cls.deserialize is URLEncodedFormHandler.deserialize\n        ):\n")
+# variant: isinstance() is true for every subclass
+M('c12-form-shortcut-guard-isinstance', 'C12', 'R9', UE, UG, "        if isinstance(self, URLEncodedFormHandler):\n")
+# variant: the JSON handler, guard on one coroutine only (the serializer slot replaces serialize_async -> serialize)
+M('c12-json-shortcut-guard-one-coroutine', 'C12', 'R9', 'falcon/media/json.py',
+  "        if type(self) is JSONHandler:\n", "        if type(self).deserialize_async is JSONHandler.deserialize_async:\n")
+# negative controls (exit 0): the guard covering all four public methods; `self.__class__ is C`; `C == type(self)`;
+# `if type(self) is not C: return` in front; `else: self._x_sync = None`
+
+# ---- wave 9: R10 deserialize_async parses the whole body once (s9-c12-2)
+UDA = "        return self._deserialize(await stream.read())\n"
+# the seed: chunk-wise parsing merged with dict.update()
+M('c12-form-async-parses-chunkwise', 'C12', 'R10', UE, UDA, """        form: dict = {}
+        pending = b''
+        async for chunk in stream:
+            fields, sep, pending = (pending + chunk).rpartition(b'&')
+            if sep:
+                form.update(self._deserialize(fields))
+        form.update(self._deserialize(pending))
+        return form
+""")
+# variant: a sized read is not the whole body
+M('c12-form-async-sized-read', 'C12', 'R10', UE, UDA, "        return self._deserialize(await stream.read(65536))\n")
+# variant: the JSON handler parses the first chunk only
+M('c12-json-async-first-chunk-only', 'C12', 'R10', 'falcon/media/json.py', UDA,
+  "        async for chunk in stream:\n            return self._deserialize(chunk)\n        return self._deserialize(b'')\n")
+# negative controls (exit 0): the data through a local; b''.join(chunks) filled by an unconditional append in `async for chunk in stream`;
+# b''.join([chunk async for chunk in stream]); `stream.read(None)`
+# variant (the shape of s10-c12-3): the chunks are decoded one by one before they are joined
+M('c12-json-async-decodes-chunkwise', 'C12', 'R10', 'falcon/media/json.py', UDA,
+  "        return self._deserialize(''.join([chunk.decode() async for chunk in stream]).encode())\n", also=('C08',))
